@@ -49,7 +49,7 @@ def Cases(tier):
       rng.shuffle(rest)
       k_ = per if i < n else 4 * per
       plans = (single + rest)[:k_] if tier != 'quick' else (
-          single[:(4 if i < n else 12)] + rest[:k_ - (4 if i < n else 12)])
+          single[:(5 if i < n else 15)] + rest[:k_ - (5 if i < n else 15)])
     for k, a in enumerate(plans):
       assignment = dict(zip(inter, a))
       v = meta.Annotate(prog, assignment)
@@ -65,6 +65,8 @@ def Cases(tier):
 REQUIRED = ['fam_inject_combine', 'fam_inject_negation', 'fam_shared_local',
             'fam_keyless_aggregate', 'fam_with_ground_chain',
             'plan_noinject', 'plan_with', 'plan_nowith', 'plan_ground',
+            'plan_noinject_nowith', 'fam_inline_subquery_in_combine',
+            'fam_argless_inject_twice', 'fam_nested_agg_helper',
             'inline', 'shared_var_names', 'negation',
             'distinct']
 
